@@ -191,6 +191,9 @@ func (d *DBFT[H]) sendRecoveryRequest() {
 	// transactions or both, so re-request missing transactions here too.
 	if d.RequestSentOrReceived() && !d.hasAllTransactions() {
 		d.processMissingTx()
+		// Transactions could've got into the pool since the last check, the
+		// block must be verified and PrepareRequest answered then.
+		d.checkTransactions()
 	}
 	req := d.NewRecoveryRequest(uint64(d.Timer.Now().UnixNano()))
 	d.broadcast(d.NewConsensusPayload(&d.Context, RecoveryRequestType, req))
